@@ -396,6 +396,7 @@ class StreamResponse(
 
         if (
             not self._chunked
+            and self._length_check
             and not self._must_be_empty_body
             and version == HttpVersion11
             and "chunked" in headers.get(hdrs.TRANSFER_ENCODING, "").lower()
